@@ -34,6 +34,15 @@ PROBES = [
 ]
 
 
+_SPELL = {'a': ["'a'", '"a"', "'\\x61'", '"\\u0061"', "'\\141'"], 'b': ["'b'", '"b"', "'\\x62'", '"\\u0062"', "'\\142'"],
+          'c': ["'c'", '"c"', "'\\x63'", '"\\u0063"', "'\\143'"]}
+
+
+def _respell(text, rng):
+    import re
+    return re.sub(r"'([abc])'", lambda m: rng.choice(_SPELL[m.group(1)]), text)
+
+
 def run_pgen(run_dir, records, workers=2, timeout=900):
     tlc.prepare(run_dir, ['Ebnf', 'Pgen'], {'gs.json': pgen_export.to_json(records)})
     res = tlc.run(run_dir, 'Pgen', CFG, workers=workers, timeout=timeout)
@@ -134,7 +143,15 @@ def run(tier):
             out.add('transitions', r3.generated)
             enum_total += len(g3)
             g3_use = g3
-        allg = g2 + gd_use + g3_use + gl + PROBES
+        # the same reserved strings written in other spellings (other quote, hex / unicode / octal escape), occurrence by
+        # occurrence: a terminal is its VALUE, so every spelling must be the same token for conflicts and tables
+        sp = []
+        for t in rng.sample(g2, min(len(g2), 700 if tier == 'quick' else 5000)) + gl[:200]:
+            v = _respell(t, rng)
+            if v != t:
+                sp.append(v)
+        out.cov(respelled_grammars=len(sp))
+        allg = g2 + gd_use + g3_use + gl + sp + PROBES
         size = 3000
         for i in range(0, len(allg), size):
             jobs.append((scratch.sub('e%d' % i), allg[i:i + size], 'enumerated'))
